@@ -51,6 +51,22 @@ def localPub (sides : List Nat) : Nat → Nat → Msg → List (Nat × Msg)
 def advanceMsg (dflt : Bool) (fwdArg : Option Bool) (body : Nat) : Msg :=
   { origin := none, fwd := some (match fwdArg with | some b => b | none => dflt), body := body }
 
+/-- `BaseComponent._handle_rpc_msg`: the reply `RPCResultMessage(rpc_req=msg, val=..)` to a request as
+    it was received.  `resDflt` is the `fwd` default of the reply's message type, `copiesFwd` says whether
+    the constructor takes the flag over from the request (messages.py; both read by the translator).
+    The reply carries the request's uid (`body`) and no origin marker. -/
+def rpcReply (resDflt copiesFwd : Bool) (req : Msg) : Msg :=
+  { origin := none,
+    fwd    := if copiesFwd then (match req.fwd with | some b => some b | none => some true) else some resDflt,
+    body   := req.body }
+
+/-- an RPC round trip: the request appears on the local bus of side `r`; every copy of it that is
+    delivered on side `h` is answered by the handler registered there, the reply appears on the local
+    bus of `h`.  The result lists the deliveries of the REPLY. -/
+def rpcRoundTrip (sides : List Nat) (fuel : Nat) (resDflt copiesFwd : Bool) (r h : Nat) (req : Msg) : List (Nat × Msg) :=
+  ((localPub sides fuel r req).filter (fun d => d.1 = h)).flatMap
+    (fun d => localPub sides fuel h (rpcReply resDflt copiesFwd d.2))
+
 /-- number of deliveries to the local subscribers of side `t` -/
 def deliveries (ds : List (Nat × Msg)) (t : Nat) : Nat :=
   (ds.filter (fun d => d.1 = t)).length
